@@ -24,13 +24,13 @@ ASSUMPTIONS = [
     "bitwise equality is required for repeats with the same thread setting in one process; <= 1e-12 (double) / 1e-6 (single) of the field "
     "maximum across thread settings and against the fresh-process table; single vs double <= 1e-5 of the field maximum",
 ]
-MIN_NONTRIVIAL = {"quick": 300, "thorough": 600}
-TIMEOUT = {"quick": 1500, "thorough": 3400}
+MIN_NONTRIVIAL = {"quick": 300, "thorough": 800}
+TIMEOUT = {"quick": 1500, "thorough": 7000}
 _table = {}
 
 
 def cases(tier, seed):
-    n = 32 if tier == "quick" else 320
+    n = 32 if tier == "quick" else 960
     return [{"seed": seed, "idx": i, "_cost": 1} for i in range(n)]
 
 
